@@ -1131,7 +1131,7 @@ def rule_tag_resolution(model):
                               'as a block (valid nested blocks raise '
                               '"unexpected end tag" depending on the '
                               'compile history)', node=n, ctx=fi)
-    r.require_floor(4)
+    r.require_floor(3)
     return r
 
 
